@@ -89,7 +89,15 @@ def project_sync(st, sites):
     return {"wrapper": st["wrapper"], "poisoned": st["poisoned"], "js": st["js"], "fut": st["fut"], "dtor": st["dtor"]}
 
 
-PROJECTORS = {"managed": None, "unmanaged": project_unmanaged, "sync": project_sync}
+def harness_cfg_syncmgr(c):
+    return {"max_size": c.get("MaxSize", 1), "backend": "r2d2"}
+
+
+def project_syncmgr(st, sites):
+    return {"idle": st["idle"], "size": st["size"], "held": sorted(st["held"]), "rec": st["rec"]}
+
+
+PROJECTORS = {"managed": None, "unmanaged": project_unmanaged, "sync": project_sync, "syncmgr": project_syncmgr}
 
 
 def site_map(spec_path):
